@@ -204,7 +204,7 @@ Definition find_compat {V} (name : str) (l : list (str * V)) : option (str * V) 
   | Some (ak, _) => find_on_track ak l
   end.
 
-Section Agg.
+Section Prims.
   (** Iteration order of the [interfaces] HashMap as a function of its content (a permutation). *)
   Variable ord : list (str * id) -> list (str * id).
   (** Fuel given to each subtype check. *)
@@ -242,239 +242,245 @@ Section Agg.
       ret y
     end.
 
-  (** ** The mutually recursive part: remap_* and merge_interface (+ its used types) *)
-  Fixpoint remap_item_kind (fuel : nat) (t : types) (k : kind) {struct fuel} : M kind :=
-    match fuel with
-    | O => oof
-    | S f =>
-      match k with
-      | KType x => y <-- remap_type f t x ;;; ret (KType y)
-      | KFunc i => y <-- remap_func_type f t i ;;; ret (KFunc y)
-      | KInstance i => y <-- remap_interface f t i ;;; ret (KInstance y)
-      | KComponent w => y <-- remap_world f t w ;;; ret (KComponent y)
-      | KModule m => y <-- remap_module_type t m ;;; ret (KModule y)
-      | KValue v => y <-- remap_value_type f t v ;;; ret (KValue y)
-      end
-    end
+End Prims.
 
-  with remap_type (fuel : nat) (t : types) (x : ty) {struct fuel} : M ty :=
-    match fuel with
-    | O => oof
-    | S f =>
-      match x with
-      | TResource r => y <-- remap_resource f t r ;;; ret (TResource y)
-      | TFunc i => y <-- remap_func_type f t i ;;; ret (TFunc y)
-      | TValue v => y <-- remap_value_type f t v ;;; ret (TValue y)
-      | TInterface i => y <-- remap_interface f t i ;;; ret (TInterface y)
-      | TWorld w => y <-- remap_world f t w ;;; ret (TWorld y)
-      | TModule m => y <-- remap_module_type t m ;;; ret (TModule y)
-      end
+(** ** The mutually recursive part: remap_* and merge_interface (+ its used types) *)
+Fixpoint remap_item_kind (ord : list (str * id) -> list (str * id)) (cf : nat) (fuel : nat) (t : types) (k : kind) {struct fuel} : M kind :=
+  match fuel with
+  | O => oof
+  | S f =>
+    match k with
+    | KType x => y <-- remap_type ord cf f t x ;;; ret (KType y)
+    | KFunc i => y <-- remap_func_type ord cf f t i ;;; ret (KFunc y)
+    | KInstance i => y <-- remap_interface ord cf f t i ;;; ret (KInstance y)
+    | KComponent w => y <-- remap_world ord cf f t w ;;; ret (KComponent y)
+    | KModule m => y <-- remap_module_type t m ;;; ret (KModule y)
+    | KValue v => y <-- remap_value_type ord cf f t v ;;; ret (KValue y)
     end
+  end
 
-  with remap_resource (fuel : nat) (t : types) (r : id) {struct fuel} : M id :=
-    match fuel with
-    | O => oof
-    | S f =>
-      hit <-- remapped_get (TResource r) ;;;
-      match hit with
-      | Some (TResource y) => ret y
-      | Some _ => panic                                             (* "expected a resource" *)
-      | None =>
-        x <-- idxM (get_res t r) ;;;
-        al <-- optM (fun a : option id * id =>
-                       let '(owner, source) := a in
-                       o' <-- optM (remap_interface f t) owner ;;;
-                       (* If there is an owning interface, ensure it is imported *)
-                       match o' with
-                       | Some ow =>
-                         i <-- agg_if ow ;;;
-                         name <-- idxM (i_id i) ;;;                (* .expect("interface has no id") *)
-                         c <-- get ;;;
-                         if has_key name (c_imports c) then ret tt
-                         else fun c => AOk (tt, with_imports c (ins name (KInstance ow) (c_imports c)))
-                       | None => ret tt
-                       end ;;;
-                       s' <-- remap_resource f t source ;;;
-                       ret (o', s')) (res_alias x) ;;;
-        y <-- add_res (mkres (res_name x) al) ;;;
-        remapped_new (TResource r) (TResource y) ;;;
-        ret y
-      end
+with remap_type (ord : list (str * id) -> list (str * id)) (cf : nat) (fuel : nat) (t : types) (x : ty) {struct fuel} : M ty :=
+  match fuel with
+  | O => oof
+  | S f =>
+    match x with
+    | TResource r => y <-- remap_resource ord cf f t r ;;; ret (TResource y)
+    | TFunc i => y <-- remap_func_type ord cf f t i ;;; ret (TFunc y)
+    | TValue v => y <-- remap_value_type ord cf f t v ;;; ret (TValue y)
+    | TInterface i => y <-- remap_interface ord cf f t i ;;; ret (TInterface y)
+    | TWorld w => y <-- remap_world ord cf f t w ;;; ret (TWorld y)
+    | TModule m => y <-- remap_module_type t m ;;; ret (TModule y)
     end
+  end
 
-  with remap_func_type (fuel : nat) (t : types) (i : id) {struct fuel} : M id :=
-    match fuel with
-    | O => oof
-    | S f =>
-      hit <-- remapped_get (TFunc i) ;;;
-      match hit with
-      | Some (TFunc y) => ret y
-      | Some _ => panic
-      | None =>
-        x <-- idxM (get_func t i) ;;;
-        ps <-- mapM (fun nv : str * valtype => v' <-- remap_value_type f t (snd nv) ;;; ret (fst nv, v')) (f_params x) ;;;
-        r <-- optM (remap_value_type f t) (f_result x) ;;;
-        y <-- add_func (mkfunc ps r (f_async x)) ;;;
-        remapped_new (TFunc i) (TFunc y) ;;;
-        ret y
-      end
+with remap_resource (ord : list (str * id) -> list (str * id)) (cf : nat) (fuel : nat) (t : types) (r : id) {struct fuel} : M id :=
+  match fuel with
+  | O => oof
+  | S f =>
+    hit <-- remapped_get (TResource r) ;;;
+    match hit with
+    | Some (TResource y) => ret y
+    | Some _ => panic                                             (* "expected a resource" *)
+    | None =>
+      x <-- idxM (get_res t r) ;;;
+      al <-- optM (fun a : option id * id =>
+                     let '(owner, source) := a in
+                     o' <-- optM (remap_interface ord cf f t) owner ;;;
+                     (* If there is an owning interface, ensure it is imported *)
+                     match o' with
+                     | Some ow =>
+                       i <-- agg_if ow ;;;
+                       name <-- idxM (i_id i) ;;;                (* .expect("interface has no id") *)
+                       c <-- get ;;;
+                       if has_key name (c_imports c) then ret tt
+                       else fun c => AOk (tt, with_imports c (ins name (KInstance ow) (c_imports c)))
+                     | None => ret tt
+                     end ;;;
+                     s' <-- remap_resource ord cf f t source ;;;
+                     ret (o', s')) (res_alias x) ;;;
+      y <-- add_res (mkres (res_name x) al) ;;;
+      remapped_new (TResource r) (TResource y) ;;;
+      ret y
     end
+  end
 
-  with remap_value_type (fuel : nat) (t : types) (v : valtype) {struct fuel} : M valtype :=
-    match fuel with
-    | O => oof
-    | S f =>
-      match v with
-      | VPrim p => ret (VPrim p)
-      | VBorrow r => y <-- remap_resource f t r ;;; ret (VBorrow y)
-      | VOwn r => y <-- remap_resource f t r ;;; ret (VOwn y)
-      | VDefined d => y <-- remap_defined_type f t d ;;; ret (VDefined y)
-      end
+with remap_func_type (ord : list (str * id) -> list (str * id)) (cf : nat) (fuel : nat) (t : types) (i : id) {struct fuel} : M id :=
+  match fuel with
+  | O => oof
+  | S f =>
+    hit <-- remapped_get (TFunc i) ;;;
+    match hit with
+    | Some (TFunc y) => ret y
+    | Some _ => panic
+    | None =>
+      x <-- idxM (get_func t i) ;;;
+      ps <-- mapM (fun nv : str * valtype => v' <-- remap_value_type ord cf f t (snd nv) ;;; ret (fst nv, v')) (f_params x) ;;;
+      r <-- optM (remap_value_type ord cf f t) (f_result x) ;;;
+      y <-- add_func (mkfunc ps r (f_async x)) ;;;
+      remapped_new (TFunc i) (TFunc y) ;;;
+      ret y
     end
+  end
 
-  with remap_defined_type (fuel : nat) (t : types) (d : id) {struct fuel} : M id :=
-    match fuel with
-    | O => oof
-    | S f =>
-      hit <-- remapped_get (TValue (VDefined d)) ;;;
-      match hit with
-      | Some (TValue (VDefined y)) => ret y
-      | Some _ => panic                                             (* "expected a defined type got .." *)
-      | None =>
-        x <-- idxM (get_def t d) ;;;
-        let V := remap_value_type f t in
-        x' <-- match x with
-               | DTuple l => l' <-- mapM V l ;;; ret (DTuple l')
-               | DList v => v' <-- V v ;;; ret (DList v')
-               | DFsl v n => v' <-- V v ;;; ret (DFsl v' n)
-               | DOption v => v' <-- V v ;;; ret (DOption v')
-               | DResult o e => o' <-- optM V o ;;; e' <-- optM V e ;;; ret (DResult o' e')
-               | DVariant cs => cs' <-- mapM (fun nv : str * option valtype =>
-                                                v' <-- optM V (snd nv) ;;; ret (fst nv, v')) cs ;;; ret (DVariant cs')
-               | DRecord fs => fs' <-- mapM (fun nv : str * valtype => v' <-- V (snd nv) ;;; ret (fst nv, v')) fs ;;;
-                               ret (DRecord fs')
-               | DFlags l => ret (DFlags l)
-               | DEnum l => ret (DEnum l)
-               | DAlias v => v' <-- V v ;;; ret (DAlias v')
-               | DStream o => o' <-- optM V o ;;; ret (DStream o')
-               | DFuture o => o' <-- optM V o ;;; ret (DFuture o')
-               end ;;;
-        y <-- add_def x' ;;;
-        remapped_new (TValue (VDefined d)) (TValue (VDefined y)) ;;;
-        ret y
-      end
+with remap_value_type (ord : list (str * id) -> list (str * id)) (cf : nat) (fuel : nat) (t : types) (v : valtype) {struct fuel} : M valtype :=
+  match fuel with
+  | O => oof
+  | S f =>
+    match v with
+    | VPrim p => ret (VPrim p)
+    | VBorrow r => y <-- remap_resource ord cf f t r ;;; ret (VBorrow y)
+    | VOwn r => y <-- remap_resource ord cf f t r ;;; ret (VOwn y)
+    | VDefined d => y <-- remap_defined_type ord cf f t d ;;; ret (VDefined y)
     end
+  end
 
-  with remap_interface (fuel : nat) (t : types) (i : id) {struct fuel} : M id :=
-    match fuel with
-    | O => oof
-    | S f =>
-      x <-- idxM (get_if t i) ;;;
-      (* If we've seen this interface before, perform a merge *)
-      hit <-- match i_id x with
-              | Some name => e <-- lookup_iface name ;;; ret (match e with Some e => Some (name, e) | None => None end)
-              | None => ret None
-              end ;;;
-      match hit with
-      | Some (name, existing) =>
-        merge_interface f existing t i ;;;       (* context "failed to merge interface": transparent *)
-        iface_set name existing ;;;
-        ret existing
-      | None =>
-        r <-- remapped_get (TInterface i) ;;;
-        match r with
-        | Some (TInterface y) => ret y
-        | Some _ => panic
-        | None =>
-          us <-- mapM (fun nu : str * used =>
-                         ui <-- idxM (get_if t (fst (snd nu))) ;;;
-                         match i_id ui with
-                         | None => fail AEUsedNoIdRemap
-                         | Some _ => y <-- remap_interface f t (fst (snd nu)) ;;; ret (fst nu, (y, snd (snd nu)))
-                         end) (i_uses x) ;;;
-          es <-- mapM (fun nk : str * kind => k' <-- remap_item_kind f t (snd nk) ;;; ret (fst nk, k')) (i_exports x) ;;;
-          y <-- add_if (mkif (i_id x) us es) ;;;
-          remapped_new (TInterface i) (TInterface y) ;;;
-          match i_id x with
-          | Some name => iface_new name y                          (* assert!(prev.is_none()) *)
-          | None => ret tt
-          end ;;;
-          ret y
-        end
-      end
+with remap_defined_type (ord : list (str * id) -> list (str * id)) (cf : nat) (fuel : nat) (t : types) (d : id) {struct fuel} : M id :=
+  match fuel with
+  | O => oof
+  | S f =>
+    hit <-- remapped_get (TValue (VDefined d)) ;;;
+    match hit with
+    | Some (TValue (VDefined y)) => ret y
+    | Some _ => panic                                             (* "expected a defined type got .." *)
+    | None =>
+      x <-- idxM (get_def t d) ;;;
+      let V := remap_value_type ord cf f t in
+      x' <-- match x with
+             | DTuple l => l' <-- mapM V l ;;; ret (DTuple l')
+             | DList v => v' <-- V v ;;; ret (DList v')
+             | DFsl v n => v' <-- V v ;;; ret (DFsl v' n)
+             | DOption v => v' <-- V v ;;; ret (DOption v')
+             | DResult o e => o' <-- optM V o ;;; e' <-- optM V e ;;; ret (DResult o' e')
+             | DVariant cs => cs' <-- mapM (fun nv : str * option valtype =>
+                                              v' <-- optM V (snd nv) ;;; ret (fst nv, v')) cs ;;; ret (DVariant cs')
+             | DRecord fs => fs' <-- mapM (fun nv : str * valtype => v' <-- V (snd nv) ;;; ret (fst nv, v')) fs ;;;
+                             ret (DRecord fs')
+             | DFlags l => ret (DFlags l)
+             | DEnum l => ret (DEnum l)
+             | DAlias v => v' <-- V v ;;; ret (DAlias v')
+             | DStream o => o' <-- optM V o ;;; ret (DStream o')
+             | DFuture o => o' <-- optM V o ;;; ret (DFuture o')
+             end ;;;
+      y <-- add_def x' ;;;
+      remapped_new (TValue (VDefined d)) (TValue (VDefined y)) ;;;
+      ret y
     end
+  end
 
-  with remap_world (fuel : nat) (t : types) (w : id) {struct fuel} : M id :=
-    match fuel with
-    | O => oof
-    | S f =>
-      r <-- remapped_get (TWorld w) ;;;
+with remap_interface (ord : list (str * id) -> list (str * id)) (cf : nat) (fuel : nat) (t : types) (i : id) {struct fuel} : M id :=
+  match fuel with
+  | O => oof
+  | S f =>
+    x <-- idxM (get_if t i) ;;;
+    (* If we've seen this interface before, perform a merge *)
+    hit <-- match i_id x with
+            | Some name => e <-- lookup_iface ord name ;;; ret (match e with Some e => Some (name, e) | None => None end)
+            | None => ret None
+            end ;;;
+    match hit with
+    | Some (name, existing) =>
+      merge_interface ord cf f existing t i ;;;       (* context "failed to merge interface": transparent *)
+      iface_set name existing ;;;
+      ret existing
+    | None =>
+      r <-- remapped_get (TInterface i) ;;;
       match r with
-      | Some (TWorld y) => ret y
+      | Some (TInterface y) => ret y
       | Some _ => panic
       | None =>
-        x <-- idxM (get_world t w) ;;;
         us <-- mapM (fun nu : str * used =>
                        ui <-- idxM (get_if t (fst (snd nu))) ;;;
                        match i_id ui with
                        | None => fail AEUsedNoIdRemap
-                       | Some _ => y <-- remap_interface f t (fst (snd nu)) ;;; ret (fst nu, (y, snd (snd nu)))
-                       end) (w_uses x) ;;;
-        im <-- mapM (fun nk : str * kind => k' <-- remap_item_kind f t (snd nk) ;;; ret (fst nk, k')) (w_imports x) ;;;
-        ex <-- mapM (fun nk : str * kind => k' <-- remap_item_kind f t (snd nk) ;;; ret (fst nk, k')) (w_exports x) ;;;
-        y <-- add_world (mkworld (w_id x) us im ex) ;;;
-        remapped_new (TWorld w) (TWorld y) ;;;
+                       | Some _ => y <-- remap_interface ord cf f t (fst (snd nu)) ;;; ret (fst nu, (y, snd (snd nu)))
+                       end) (i_uses x) ;;;
+        es <-- mapM (fun nk : str * kind => k' <-- remap_item_kind ord cf f t (snd nk) ;;; ret (fst nk, k')) (i_exports x) ;;;
+        y <-- add_if (mkif (i_id x) us es) ;;;
+        remapped_new (TInterface i) (TInterface y) ;;;
+        match i_id x with
+        | Some name => iface_new name y                          (* assert!(prev.is_none()) *)
+        | None => ret tt
+        end ;;;
         ret y
       end
     end
+  end
 
-  with merge_interface (fuel : nat) (existing : id) (t : types) (i : id) {struct fuel} : M unit :=
-    match fuel with
-    | O => oof
-    | S f =>
-      (* Merge the used types of the two interfaces *)
-      merge_interface_used_types f existing t i ;;;
-      (* Merge the interface's exports *)
-      src <-- idxM (get_if t i) ;;;
-      forM (fun nk : str * kind =>
-              let '(name, sk) := nk in
-              ex <-- agg_if existing ;;;
-              let do_remap : M unit :=
-                  k' <-- remap_item_kind f t sk ;;; upd_if existing (if_set_export name k') in
-              match assoc name (i_exports ex) with
-              | Some tk =>
-                r1 <-- sub_fa t sk tk ;;;
-                if is_ok r1 then remapped_set (ty_of sk) (ty_of tk)      (* ... continue *)
-                else r2 <-- sub_af t tk sk ;;; must AEMismatchExport r2 ;;; do_remap
-              | None => do_remap
-              end) (i_exports src)
+with remap_world (ord : list (str * id) -> list (str * id)) (cf : nat) (fuel : nat) (t : types) (w : id) {struct fuel} : M id :=
+  match fuel with
+  | O => oof
+  | S f =>
+    r <-- remapped_get (TWorld w) ;;;
+    match r with
+    | Some (TWorld y) => ret y
+    | Some _ => panic
+    | None =>
+      x <-- idxM (get_world t w) ;;;
+      us <-- mapM (fun nu : str * used =>
+                     ui <-- idxM (get_if t (fst (snd nu))) ;;;
+                     match i_id ui with
+                     | None => fail AEUsedNoIdRemap
+                     | Some _ => y <-- remap_interface ord cf f t (fst (snd nu)) ;;; ret (fst nu, (y, snd (snd nu)))
+                     end) (w_uses x) ;;;
+      im <-- mapM (fun nk : str * kind => k' <-- remap_item_kind ord cf f t (snd nk) ;;; ret (fst nk, k')) (w_imports x) ;;;
+      ex <-- mapM (fun nk : str * kind => k' <-- remap_item_kind ord cf f t (snd nk) ;;; ret (fst nk, k')) (w_exports x) ;;;
+      y <-- add_world (mkworld (w_id x) us im ex) ;;;
+      remapped_new (TWorld w) (TWorld y) ;;;
+      ret y
     end
+  end
 
-  with merge_interface_used_types (fuel : nat) (existing : id) (t : types) (i : id) {struct fuel} : M unit :=
-    match fuel with
-    | O => oof
-    | S f =>
-      src <-- idxM (get_if t i) ;;;
-      forM (fun nu : str * used =>
-              let '(name, (ui, un)) := nu in
-              uif <-- idxM (get_if t ui) ;;;
-              used_interface <-- match i_id uif with Some x => ret x | None => fail AEUsedNoId end ;;;
-              ex <-- agg_if existing ;;;
-              match assoc name (i_uses ex) with
-              | Some (ei, en) =>
-                eif <-- agg_if ei ;;;
-                existing_interface <-- match i_id eif with Some x => ret x | None => fail AEUsedNoId end ;;;
-                if negb (compat existing_interface used_interface) then fail AEUsedIface
-                else if negb (opt_str_eqb en un) then fail AEUsedName else ret tt
-              | None => ret tt
-              end ;;;
-              remapped <-- remap_interface f t ui ;;;
-              ex' <-- agg_if existing ;;;
-              match assoc name (i_uses ex') with
-              | Some (ei, _) => if id_eqb ei remapped then ret tt else panic    (* "expected a merge to have occurred" *)
-              | None => upd_if existing (if_set_use name (remapped, un))
-              end) (i_uses src)
-    end.
+with merge_interface (ord : list (str * id) -> list (str * id)) (cf : nat) (fuel : nat) (existing : id) (t : types) (i : id) {struct fuel} : M unit :=
+  match fuel with
+  | O => oof
+  | S f =>
+    (* Merge the used types of the two interfaces *)
+    merge_interface_used_types ord cf f existing t i ;;;
+    (* Merge the interface's exports *)
+    src <-- idxM (get_if t i) ;;;
+    forM (fun nk : str * kind =>
+            let '(name, sk) := nk in
+            ex <-- agg_if existing ;;;
+            let do_remap : M unit :=
+                k' <-- remap_item_kind ord cf f t sk ;;; upd_if existing (if_set_export name k') in
+            match assoc name (i_exports ex) with
+            | Some tk =>
+              r1 <-- sub_fa cf t sk tk ;;;
+              if is_ok r1 then remapped_set (ty_of sk) (ty_of tk)      (* ... continue *)
+              else r2 <-- sub_af cf t tk sk ;;; must AEMismatchExport r2 ;;; do_remap
+            | None => do_remap
+            end) (i_exports src)
+  end
+
+with merge_interface_used_types (ord : list (str * id) -> list (str * id)) (cf : nat) (fuel : nat) (existing : id) (t : types) (i : id) {struct fuel} : M unit :=
+  match fuel with
+  | O => oof
+  | S f =>
+    src <-- idxM (get_if t i) ;;;
+    forM (fun nu : str * used =>
+            let '(name, (ui, un)) := nu in
+            uif <-- idxM (get_if t ui) ;;;
+            used_interface <-- match i_id uif with Some x => ret x | None => fail AEUsedNoId end ;;;
+            ex <-- agg_if existing ;;;
+            match assoc name (i_uses ex) with
+            | Some (ei, en) =>
+              eif <-- agg_if ei ;;;
+              existing_interface <-- match i_id eif with Some x => ret x | None => fail AEUsedNoId end ;;;
+              if negb (compat existing_interface used_interface) then fail AEUsedIface
+              else if negb (opt_str_eqb en un) then fail AEUsedName else ret tt
+            | None => ret tt
+            end ;;;
+            remapped <-- remap_interface ord cf f t ui ;;;
+            ex' <-- agg_if existing ;;;
+            match assoc name (i_uses ex') with
+            | Some (ei, _) => if id_eqb ei remapped then ret tt else panic    (* "expected a merge to have occurred" *)
+            | None => upd_if existing (if_set_use name (remapped, un))
+            end) (i_uses src)
+  end.
+
+Section Agg.
+  Variable ord : list (str * id) -> list (str * id).
+  Variable cf : nat.
 
   (** ** Non-recursive merges (called from [aggregate] only) *)
   Definition merge_world_used_types (fuel : nat) (existing : id) (t : types) (w : id) : M unit :=
@@ -492,7 +498,7 @@ Section Agg.
               else if negb (opt_str_eqb en un) then fail AEUsedName else ret tt
             | None => ret tt
             end ;;;
-            remapped <-- remap_interface fuel t ui ;;;
+            remapped <-- remap_interface ord cf fuel t ui ;;;
             ex' <-- agg_world existing ;;;
             match assoc name (w_uses ex') with
             | Some (ei, _) => if id_eqb ei remapped then ret tt else panic
@@ -507,12 +513,12 @@ Section Agg.
             let '(name, sk) := nk in
             ex <-- agg_world existing ;;;
             let do_remap : M unit :=
-                k' <-- remap_item_kind fuel t sk ;;; upd_world existing (w_set_import name k') in
+                k' <-- remap_item_kind ord cf fuel t sk ;;; upd_world existing (w_set_import name k') in
             match assoc name (w_imports ex) with
             | Some tk =>
-              r1 <-- sub_af t tk sk ;;;
+              r1 <-- sub_af cf t tk sk ;;;
               if is_ok r1 then ret tt
-              else r2 <-- sub_fa t sk tk ;;; must AEMismatchImport r2 ;;; do_remap
+              else r2 <-- sub_fa cf t sk tk ;;; must AEMismatchImport r2 ;;; do_remap
             | None => do_remap
             end) (w_imports src) ;;;
     chk_revert ;;;
@@ -520,24 +526,24 @@ Section Agg.
             let '(name, sk) := nk in
             ex <-- agg_world existing ;;;
             let do_remap : M unit :=
-                k' <-- remap_item_kind fuel t sk ;;; upd_world existing (w_set_export name k') in
+                k' <-- remap_item_kind ord cf fuel t sk ;;; upd_world existing (w_set_export name k') in
             match assoc name (w_exports ex) with
             | Some tk =>
-              r1 <-- sub_fa t sk tk ;;;
+              r1 <-- sub_fa cf t sk tk ;;;
               if is_ok r1 then ret tt
-              else r2 <-- sub_af t tk sk ;;; must AEMismatchExport r2 ;;; do_remap
+              else r2 <-- sub_af cf t tk sk ;;; must AEMismatchExport r2 ;;; do_remap
             | None => do_remap
             end) (w_exports src).
 
   Definition merge_func_type (existing : id) (t : types) (i : id) : M unit :=
-    r1 <-- sub_fa t (KFunc i) (KFunc existing) ;;; must AESubtype r1 ;;;
-    r2 <-- sub_af t (KFunc existing) (KFunc i) ;;; must AESubtype r2.
+    r1 <-- sub_fa cf t (KFunc i) (KFunc existing) ;;; must AESubtype r1 ;;;
+    r2 <-- sub_af cf t (KFunc existing) (KFunc i) ;;; must AESubtype r2.
   Definition merge_resource (existing : id) (t : types) (i : id) : M unit :=
-    r1 <-- sub_fa t (KType (TResource i)) (KType (TResource existing)) ;;; must AESubtype r1 ;;;
-    r2 <-- sub_af t (KType (TResource existing)) (KType (TResource i)) ;;; must AESubtype r2.
+    r1 <-- sub_fa cf t (KType (TResource i)) (KType (TResource existing)) ;;; must AESubtype r1 ;;;
+    r2 <-- sub_af cf t (KType (TResource existing)) (KType (TResource i)) ;;; must AESubtype r2.
   Definition merge_value_type (existing : valtype) (t : types) (v : valtype) : M unit :=
-    r1 <-- sub_fa t (KValue v) (KValue existing) ;;; must AESubtype r1 ;;;
-    r2 <-- sub_af t (KValue existing) (KValue v) ;;; must AESubtype r2.
+    r1 <-- sub_fa cf t (KValue v) (KValue existing) ;;; must AESubtype r1 ;;;
+    r2 <-- sub_af cf t (KValue existing) (KValue v) ;;; must AESubtype r2.
 
   (** [checker.core_extern] is a [&self] method: it reads the current variance only. *)
   Definition cur_variance : M variance := fun c => AOk (vkind (ks (c_chk c)), c).
@@ -575,7 +581,7 @@ Section Agg.
     | TResource e, TResource i => merge_resource e t i
     | TFunc e, TFunc i => merge_func_type e t i
     | TValue e, TValue v => merge_value_type e t v
-    | TInterface e, TInterface i => merge_interface fuel e t i
+    | TInterface e, TInterface i => merge_interface ord cf fuel e t i
     | TWorld e, TWorld w => merge_world fuel e t w
     | TModule e, TModule m => merge_module_type e t m
     | _, _ => cannot_merge desc_ty existing t x
@@ -583,7 +589,7 @@ Section Agg.
 
   Definition merge_item_kind (fuel : nat) (existing : kind) (t : types) (k : kind) : M unit :=
     match existing, k with
-    | KInstance e, KInstance i => merge_interface fuel e t i
+    | KInstance e, KInstance i => merge_interface ord cf fuel e t i
     | KComponent e, KComponent w => merge_world fuel e t w
     | KFunc e, KFunc i => merge_func_type e t i
     | KModule e, KModule m => merge_module_type e t m
@@ -649,7 +655,7 @@ Section Agg.
         | AErr e => AErr e | APanic => APanic | AOof => AOof
         end
       | None =>
-        match remap_item_kind fuel t k (core_of a s) with
+        match remap_item_kind ord cf fuel t k (core_of a s) with
         | AOk (k', c) =>
           if has_key name (c_imports c) then APanic                   (* assert!(prev.is_none()) *)
           else AOk (agg_of c (ins name k' (c_imports c)) (a_redirects a), c_chk c)
